@@ -1623,3 +1623,54 @@ Section Fidelity.
       + rewrite !in_app_iff. right. right. apply in_map. exact Hb.
   Qed.
 End Fidelity.
+
+(* ====================================================================== *)
+(* without duplicate names, a reader that keeps one member per name sees  *)
+(* the same tree as one that groups them                                  *)
+(* ====================================================================== *)
+
+Lemma ins_member_map (f : json -> json) k v : forall acc,
+  ins_member k (f v) (map (fun kvs => (fst kvs, map f (snd kvs))) acc)
+  = map (fun kvs => (fst kvs, map f (snd kvs))) (ins_member k v acc).
+Proof.
+  induction acc as [|[k' vs] acc IH]; [reflexivity|].
+  cbn [map ins_member fst snd]. destruct (str_eqb k k').
+  - cbn [map fst snd]. rewrite map_app. reflexivity.
+  - destruct (str_ltb k k'); cbn [map fst snd]; [reflexivity|]. rewrite IH. reflexivity.
+Qed.
+
+Lemma group_members_map (f : json -> json) m :
+  group_members (map (fun kv => (fst kv, f (snd kv))) m)
+  = map (fun kvs => (fst kvs, map f (snd kvs))) (group_members m).
+Proof.
+  unfold group_members.
+  change (@nil (str * list json)) with (map (fun kvs : str * list json => (fst kvs, map f (snd kvs))) []) at 1.
+  generalize (@nil (str * list json)) as acc.
+  induction m as [|[k v] m IH]; intros acc; [reflexivity|].
+  cbn [map fold_left fst snd]. rewrite ins_member_map. apply IH.
+Qed.
+
+Theorem norm_no_duplicates : forall j, has_dup_keys j = false -> norm false j = norm true j.
+Proof.
+  induction j as [| b | l | s | l IH | m IH] using json_ind'; intros H; try reflexivity.
+  - cbn [norm]. f_equal. cbn [has_dup_keys] in H. apply map_ext_in. intros v Hv.
+    rewrite Forall_forall in IH. apply IH; [exact Hv|].
+    destruct (has_dup_keys v) eqn:E; [|reflexivity].
+    assert (existsb has_dup_keys l = true) by (apply existsb_exists; exists v; split; assumption). congruence.
+  - cbn [has_dup_keys] in H. apply orb_false_iff in H. destruct H as [H1 H2].
+    cbn [norm]. f_equal.
+    assert (Em : map (fun kv => (fst kv, norm false (snd kv))) m = map (fun kv => (fst kv, norm true (snd kv))) m).
+    { apply map_ext_in. intros kv Hkv. f_equal. rewrite Forall_forall in IH. apply IH; [exact Hkv|].
+      destruct (has_dup_keys (snd kv)) eqn:E; [|reflexivity].
+      assert (existsb (fun kv0 => has_dup_keys (snd kv0)) m = true) by (apply existsb_exists; exists kv; split; assumption).
+      congruence. }
+    rewrite Em. rewrite (group_members_map (norm true) m).
+    apply map_ext_in. intros kvs Hin. f_equal.
+    apply in_map_iff in Hin. destruct Hin as (kvs0 & <- & Hin0). cbn [snd].
+    assert (Hs : match snd kvs0 with [_] => false | _ => true end = false).
+    { destruct (match snd kvs0 with [_] => false | _ => true end) eqn:E; [|reflexivity].
+      assert (existsb (fun kvs => match snd kvs with [_] => false | _ => true end) (group_members m) = true)
+        by (apply existsb_exists; exists kvs0; split; assumption).
+      congruence. }
+    destruct (snd kvs0) as [|v [|w r]]; try discriminate. reflexivity.
+Qed.
